@@ -920,6 +920,8 @@ impl CommitEnv for LsmCommitEnv {
 	// Write batch to WAL with inline values (synchronous operation).
 	// VLog separation is deferred to memtable flush time.
 	fn write(&self, batch: &Batch, seq_num: u64, sync: bool) -> Result<Batch> {
+		#[cfg(surrealkv_verif)]
+		crate::verif::fail_point("commit.wal")?;
 		let mut processed_batch = Batch::new(seq_num);
 
 		for (_, entry, _current_seq_num, timestamp) in batch.entries_with_seq_nums()? {
@@ -951,6 +953,8 @@ impl CommitEnv for LsmCommitEnv {
 
 	/// Apply batch to memtable with retry on arena full.
 	fn apply(&self, batch: &Batch) -> Result<()> {
+		#[cfg(surrealkv_verif)]
+		crate::verif::fail_point("commit.apply")?;
 		// Try to add to current memtable
 		let result = {
 			let active_memtable = self.core.active_memtable.read()?;
